@@ -34,7 +34,7 @@ fn plan(tier: Tier, _seed: u64) -> Plan {
 		shards: 14,
 		case_timeout_s: 600,
 		level: "exploration",
-		rule: "one case = (payload set: 1 byte, 10 random bytes, UTF-8 JSON, 100 KiB highly compressible, 70 KiB incompressible, plus random sizes, genuinely compressed with the source compression) x (source compression) x (target: keep | none | gzip | brotli) x (force flag) x (target format versatiles | pmtiles | mbtiles | tar | directory), with random flip / swap flags and in-memory or file sources. Combinations a format cannot hold (MBTiles / PMTiles pairs) are skipped and counted. One evaluation = one conversion checked tile by tile through lookups and streams. Non-trivial: every conversion with >= 3 tiles; distinct by (payload set, combination)".into(),
+		rule: "one case = (payload set: 1 byte, 10 random bytes, UTF-8 JSON, 100 KiB highly compressible, 70 KiB incompressible, plus random sizes, genuinely compressed with the source compression) x (source compression) x (target: keep | none | gzip | brotli) x (force flag) x (target format versatiles | pmtiles | mbtiles | tar | directory), with random flip / swap flags and in-memory or file sources; plus, 5 per 120, the real `versatiles convert --override-input-compression` on directories whose compressed tiles carry no compression suffix, read back by the independent decoders. Combinations a format cannot hold (MBTiles / PMTiles pairs) are skipped and counted. One evaluation = one conversion checked tile by tile through lookups and streams. Non-trivial: every conversion with >= 3 tiles; distinct by (payload set, combination)".into(),
 		assumptions: vec!["decoding uses the flate2 / brotli crates directly; metadata is compared as JSON, ignoring bounds / minzoom / maxzoom which readers may narrow".into()],
 		min_evaluations: 100,
 		exhaustive: false,
@@ -52,6 +52,12 @@ fn finalize(_t: Tier, _p: &Plan, rep: &mut Report) {
 }
 
 fn payload_set(rng: &mut Rng, format: TileFormat, c: Comp) -> TileSet {
+	payload_set_with(rng, format, c, false)
+}
+
+/// `huge`: additionally one tile of a little more than 16 MiB and one of 33 MiB (decoded size) — past the
+/// round numbers at which a decoder might cap its output
+fn payload_set_with(rng: &mut Rng, format: TileFormat, c: Comp, huge: bool) -> TileSet {
 	let z = *rng.pick(&[2u8, 5, 9, 14]);
 	let m = ((1u64 << z) - 1) as u32;
 	let (x0, y0) = (rng.range(0, (m - 3) as u64) as u32, rng.range(0, (m - 3) as u64) as u32);
@@ -63,6 +69,14 @@ fn payload_set(rng: &mut Rng, format: TileFormat, c: Comp) -> TileSet {
 		rng.bytes(70 * 1024),
 		vec![0u8; 3000],
 	];
+	if huge {
+		for n in [(16usize << 20) + 1, 33 << 20] {
+			let mut v: Vec<u8> = b"sixteen MiB and a bit ".iter().cycle().take(n).cloned().collect();
+			let l = v.len();
+			v[l - 9..].copy_from_slice(b"THE END.\n");
+			raw.push(v);
+		}
+	}
 	for _ in 0..rng.range(1, 5) {
 		let n = *rng.pick(&[2usize, 17, 999, 1000, 1001, 5000]);
 		raw.push(if rng.bool() { rng.bytes(n) } else { b"ab".iter().cycle().take(n).cloned().collect() });
@@ -97,6 +111,9 @@ fn run_case(cx: &CaseCtx, rep: &mut Report) {
 	if cx.case < 3 {
 		algebra(rep, &mut rng);
 	}
+	if combo % 24 == 5 {
+		cli_override(cx, rep, &mut rng, combo);
+	}
 	// choose a tile format that both the source pairing and the target accept
 	let fmts: Vec<TileFormat> = match target {
 		"mbtiles" => pairs_for("mbtiles").into_iter().filter(|(_, c)| *c == out_comp).map(|(f, _)| f).collect(),
@@ -108,7 +125,12 @@ fn run_case(cx: &CaseCtx, rep: &mut Report) {
 		return;
 	}
 	let format = *rng.pick(&fmts);
-	let ts = payload_set(&mut rng, format, src_comp);
+	// thorough: about fifteen conversions with tiles beyond 16 MiB
+	let huge = matches!(cx.tier, Tier::Thorough) && cx.case / 120 == 3 && combo % 7 == 3 && target != "mbtiles";
+	if huge {
+		rep.count("conversions_with_tiles_beyond_16_MiB", 1);
+	}
+	let ts = payload_set_with(&mut rng, format, src_comp, huge);
 	let flip = rng.chance(0.3);
 	let swap = rng.chance(0.3);
 	let dir = cx.fresh_dir("c04");
@@ -287,6 +309,97 @@ fn run_case(cx: &CaseCtx, rep: &mut Report) {
 	rep.count("combinations_distinct_cells", 1);
 	if rep.wants_sample() {
 		rep.sample(json!({"conversion": desc, "tile_format": format!("{format:?}"), "tiles": ts.tiles.len(), "payload_sizes_decoded": expect.values().map(|v| v.len()).collect::<Vec<_>>()}));
+	}
+	let _ = std::fs::remove_dir_all(&dir);
+}
+
+/// `versatiles convert --override-input-compression <C> [-c X] [-f]` on a directory whose tiles are stored
+/// compressed under names without a compression suffix (the option's documented use), read back by the
+/// independent decoders
+fn cli_override(cx: &CaseCtx, rep: &mut Report, rng: &mut Rng, combo: u64) {
+	let Some(bin) = crate::server::binary() else {
+		rep.inconclusive("versatiles binary not built");
+		return;
+	};
+	let src_comp = if (combo / 24) % 2 == 0 { Comp::Gzip } else { Comp::Brotli };
+	let opt = *rng.pick(&OPTS);
+	let force = rng.bool();
+	let target = *rng.pick(&["versatiles", "tar"]);
+	let out_comp = opt.unwrap_or(src_comp);
+	let ts = payload_set(rng, TileFormat::PBF, src_comp);
+	let dir = cx.fresh_dir("c04cli");
+	let src = dir.join("tiles_dir");
+	let mut named = ts.clone();
+	named.comp = Comp::None;
+	if let Err(e) = codec::idir::encode(&named, &src, &codec::idir::EncOpts { meta_name: "tiles.json", no_meta: false, stray_files: false, alt_spellings: false }) {
+		rep.inconclusive(&format!("fixture write failed: {e}"));
+		return;
+	}
+	let out = container_path(&dir, target);
+	let mut cmd = std::process::Command::new(bin);
+	cmd.arg("convert").arg("--override-input-compression").arg(if src_comp == Comp::Gzip { "gzip" } else { "brotli" });
+	if let Some(c) = opt {
+		cmd.arg("-c").arg(match c {
+			Comp::None => "uncompressed",
+			Comp::Gzip => "gzip",
+			Comp::Brotli => "brotli",
+		});
+	}
+	if force {
+		cmd.arg("-f");
+	}
+	cmd.arg(&src).arg(&out).current_dir(&dir).stdout(std::process::Stdio::null()).stderr(std::process::Stdio::piped());
+	let desc = format!("cli: override={} -c {} force={force} -> {target}", src_comp.name(), opt.map(|c| c.name()).unwrap_or("(keep)"));
+	cx.progress(&desc);
+	let witness = |extra: serde_json::Value| json!({"conversion": desc, "tileset": ts.describe(), "detail": extra});
+	rep.eval();
+	rep.count("cli_conversions_with_override_input_compression", 1);
+	let o = match cmd.output() {
+		Ok(o) => o,
+		Err(e) => {
+			rep.inconclusive(&format!("cannot run the binary: {e}"));
+			return;
+		}
+	};
+	if !o.status.success() {
+		rep.violation("cli-override|convert-failed", "a valid conversion failed", witness(json!({"stderr": String::from_utf8_lossy(&o.stderr).chars().take(400).collect::<String>()})));
+		return;
+	}
+	let decoded = if target == "versatiles" { std::fs::read(&out).map_err(|e| e.to_string()).and_then(|b| codec::ivt::decode(&b)) } else { std::fs::read(&out).map_err(|e| e.to_string()).and_then(|b| codec::itar::decode(&b)) };
+	let d = match decoded {
+		Err(e) => {
+			rep.violation(&format!("cli-override|decoder|{target}|cannot-parse"), "an independent decoder cannot parse the converted container", witness(json!({"error": e})));
+			return;
+		}
+		Ok(d) => d,
+	};
+	if d.comp != Some(out_comp) {
+		rep.violation("cli-override|declared-compression", "the file declares another compression than requested (or than the overridden source's when kept)", witness(json!({"declared": d.comp.map(|c| c.name()), "expected": out_comp.name()})));
+		return;
+	}
+	for (k, v) in &ts.tiles {
+		let want = comp::decompress(v, src_comp).unwrap();
+		if want.is_empty() && out_comp == Comp::None {
+			continue;
+		}
+		match d.tiles.get(k) {
+			None => {
+				rep.violation("cli-override|tile-missing", "a source tile is missing from the converted container", witness(json!({"tile": kstr(k)})));
+				break;
+			}
+			Some(b) => match comp::decompress(b, out_comp) {
+				Err(e) => {
+					rep.violation("cli-override|not-decodable-with-declared-compression", "an output tile does not decode with the compression the output declares", witness(json!({"tile": kstr(k), "error": e, "bytes": short(b)})));
+					break;
+				}
+				Ok(raw) => {
+					if raw != want {
+						rep.violation("cli-override|payload-changed", "decoded output tile differs from the decoded source tile", witness(json!({"tile": kstr(k), "expected": short(&want), "got": short(&raw)})));
+						break;
+					}
+				}
+			},
+		}
 	}
 	let _ = std::fs::remove_dir_all(&dir);
 }
